@@ -483,14 +483,20 @@ func cmdCheck(args []string) {
 			fmt.Printf("VIOLATION property=%s replay=%s\n", cone.ID, p)
 		}
 	}
-	for _, v := range run.vacuity {
+	// a failed vacuity probe (cover obligation: the assumptions collected while encoding a function must stay
+	// satisfiable) is reported like any other failed obligation: on the unchanged tree every probe passes, so a failure
+	// means the code no longer fits the contracts it is checked against and nothing proved for that function counts.
+	for i, v := range run.vacuity {
 		fmt.Fprintln(os.Stderr, "gobtvc: VACUOUS:", v)
+		os.MkdirAll(filepath.Join(outDir, "replay"), 0o755)
+		p := filepath.Join(outDir, "replay", fmt.Sprintf("cover_%d.txt", i))
+		os.WriteFile(p, []byte("failed obligation: cover (vacuity probe)\n"+v+"\nno counterexample: the solver proved the assumptions of this function contradictory\n"), 0o644)
+		fmt.Printf("VIOLATION property=%s replay=%s no-failing-input-found\n", cone.ID, p)
+		fmt.Printf("  obligation #cover: %s\n", v)
+		violations++
 	}
 	if claimed == 0 || claimed < bl.MinObligations/2 {
 		fmt.Fprintf(os.Stderr, "gobtvc: vacuity guard: only %d claimed obligations generated (baseline %d)\n", claimed, bl.MinObligations)
-		os.Exit(2)
-	}
-	if len(run.vacuity) > 0 {
 		os.Exit(2)
 	}
 	writeEvidence(cone, run, *tier, seed, claimed, discharged, byBackend, samples, unclaimed, bounded, violations, time.Since(t0).Seconds(), known)
